@@ -1188,6 +1188,7 @@ fn gen_info(r: &mut Rng, enc: Enc, focus: Option<u64>, obs: &mut Vec<&'static st
                     }
                     10 => {
                         // ranges
+                        obs.push("attr.ranges");
                         if v >= 5 && r.bool() {
                             a.uleb(r.below(nlists as u64));
                             obs.push("form.rnglistx");
@@ -1199,6 +1200,7 @@ fn gen_info(r: &mut Rng, enc: Enc, focus: Option<u64>, obs: &mut Vec<&'static st
                     }
                     11 => {
                         // location list
+                        obs.push("attr.loclist");
                         if v >= 5 && r.bool() {
                             a.uleb(r.below(nlists as u64));
                             obs.push("form.loclistx");
@@ -1529,6 +1531,13 @@ fn info_case(ctx: &mut Ctx, stream: &str, i: u64, enc: Enc, focus: Option<u64>) 
     let mut total = 0usize;
     let secs = gen_info(&mut r, enc, focus, &mut obs, &mut total);
     let oks = check_dwarf(ctx, "asm.info", &secs, enc, &|| json!({"focus": focus}));
+    // per-feature success ratios (a converter that rejects every range / location list is not a
+    // violation of C12 - Err is always acceptable - but must show up as inconclusive)
+    for (feature, class) in [("attr.ranges", "asm.info.with_ranges"), ("attr.loclist", "asm.info.with_loclist")] {
+        if obs.contains(&feature) {
+            ctx.obs(&format!("class.{}.{}", class, if oks > 0 { "ok" } else { "err" }));
+        }
+    }
     if oks > 0 {
         let mut seen = std::collections::BTreeSet::new();
         for o in &obs {
@@ -1543,7 +1552,80 @@ fn info_case(ctx: &mut Ctx, stream: &str, i: u64, enc: Enc, focus: Option<u64>) 
     ctx.sample("asm.info", || json!({"enc": enc.label(), "entries": total, "sections": secs.json()}));
 }
 
+/// Minimal witness of the known finding `SKIP_VLIW_MID_SEQUENCE_SET_ADDRESS`:
+/// v4, max_ops 4: set_address 0x1000; row with op_index k; set_address 0x2000; row with op_index 1.
+fn vliw_witness(first_op_index: u8) -> Secs {
+    let mut a = Asm::new(true);
+    a.map = false;
+    let m = a.begin_length(false);
+    a.u16(4);
+    let hl = a.len();
+    a.u32(0);
+    let hs = a.len();
+    a.u8(1).u8(4).u8(1).u8(0).u8(1).u8(13);
+    a.bytes(&STD_LENGTHS);
+    a.u8(0); // no include directories
+    a.cstr(b"a.c").uleb(0).uleb(0).uleb(0).u8(0);
+    let hlen = (a.len() - hs) as u64;
+    a.patch_uint(hl, 4, hlen);
+    a.u8(0).uleb(9).u8(2).u64(0x1000);
+    a.u8(13 + first_op_index); // special: op advance = first_op_index, line += 0
+    a.u8(0).uleb(9).u8(2).u64(0x2000);
+    a.u8(14); // op advance 1 -> (0x2000, op_index 1)
+    a.u8(2).uleb(4);
+    a.u8(0).uleb(1).u8(1);
+    a.end_length(m);
+    let mut secs = Secs::default();
+    secs.set(SectionId::DebugLine, a.buf);
+    secs
+}
+
+fn known_vliw(ctx: &mut Ctx) {
+    for (i, k) in [1u8, 2].into_iter().enumerate() {
+        if !ctx.want_hashed("known.vliw_set_address", i as u64) {
+            continue;
+        }
+        let enc = Enc::new(true, false, 4, 8);
+        let secs = vliw_witness(k);
+        ctx.eval();
+        if !super::SKIP_VLIW_MID_SEQUENCE_SET_ADDRESS {
+            check_line(ctx, "asm.line", &secs, enc, &|| json!({"witness": "vliw mid-sequence set_address", "first_op_index": k}));
+            continue;
+        }
+        // observation only while the finding is skipped
+        let r = ctx.guard_raw("known.vliw_set_address", || -> Result<bool, String> {
+            use crate::mon::dump;
+            let endian = enc.endian();
+            fn prog_of<'a>(d: &gimli::Dwarf<super::Slice<'a>>) -> gimli::Result<gimli::IncompleteLineProgram<super::Slice<'a>>> {
+                d.debug_line.program(gimli::DebugLineOffset(0), 8, None, None)
+            }
+            let dwarf = super::load(&secs, endian);
+            let d0 = dump::dump_line_program(&dwarf, None, prog_of(&dwarf).map_err(|e| format!("{:?}", e))?);
+            let mut w = gimli::write::Dwarf::new();
+            let program = w
+                .read_line_program(&dwarf, prog_of(&dwarf).map_err(|e| format!("{:?}", e))?, None, None)
+                .and_then(|cp| cp.convert(&super::identity_address))
+                .map_err(|e| format!("{:?}", e))?
+                .0;
+            w.line_programs.push(program);
+            let out = super::write_dwarf(&mut w, endian).map_err(|e| format!("{:?}", e))?;
+            let dwarf1 = super::load(&out, endian);
+            let d1 = dump::dump_line_program(&dwarf1, None, prog_of(&dwarf1).map_err(|e| format!("{:?}", e))?);
+            Ok(dump::first_diff(&d0, &d1).is_none())
+        });
+        let outcome = match r {
+            Err(p) => format!("panic.{}", crate::rt::panic_kind(&p.message).replace(' ', "_")),
+            Ok(Err(_)) => "err".to_string(),
+            Ok(Ok(true)) => "equal".to_string(),
+            Ok(Ok(false)) => "op_index_altered".to_string(),
+        };
+        ctx.obs(&format!("known.vliw_set_address.first_op_index_{}.{}", k, outcome));
+        ctx.sample("known.vliw_set_address", || json!({"first_op_index": k, "outcome": outcome, "sections": secs.json()}));
+    }
+}
+
 pub fn run(ctx: &mut Ctx) {
+    known_vliw(ctx);
     // ---- line programs: catalogue (every forced opcode x every version x both formats/endians by index), then random
     let ncat = (LINE_FORCE.len() * 4 * 4) as u64;
     for i in 0..ncat {
